@@ -100,6 +100,10 @@ class RZILTransformer(Transformer):
             )
 
         self.il_ops_holder = ILOpsHolder()
+        # Prefix of the temporary variables of hybrids. Sub-routines set it to their name, because all local
+        # variables of an IL operation share one namespace: the h_tmpX of a callee must not be the h_tmpX
+        # of its caller.
+        self.hybrid_tmp_prefix = ""
 
         if self.arch == ArchEnum.HEXAGON:
             self.ext = HexagonTransformerExtension(self)
@@ -1076,7 +1080,7 @@ class RZILTransformer(Transformer):
         if hybrid.value_type.group & VTGroup.VOID:
             return hybrid
 
-        tmp_x_name = f"h_tmp{self.il_ops_holder.hybrid_op_count}"
+        tmp_x_name = f"{self.hybrid_tmp_prefix}h_tmp{self.il_ops_holder.hybrid_op_count}"
         self.il_ops_holder.hybrid_op_count += 1
         if hybrid.seq_order == HybridSeqOrder.EXEC_ONLY:
             # Doesn't return anything. So no LocalVar for the return value has to be initialized.
